@@ -7,11 +7,16 @@
    (B) the abstract specification of the per-key notification history (Spec/StoreSpec.v expected_history), which
        judges every implementation trace: exactly one expiry exactly at t0+ttl, none earlier, refresh replaces the
        deadline (also by the infinite one), removal silences, alternation for every input history;
-   (C) NOT proved: that Model/Stack.v run refines (B) for every scenario (the end-to-end refinement
-       C09_model_refines_spec).  It is checked on every run by comparing complete model traces with the
-       implementation and judging the implementation traces with (B). *)
+   (C) the ownership invariant of the FULL stack model (Proofs/WorldInv.v), proved for every callback of the loop
+       (exec of every handle), every iteration and every reachable state, i.e. under every schedule: every stored
+       finite-TTL entry of both stores owns a pending expiry handle that is not cancelled (so no entry is ever left
+       without its timer, and cancelling another component's timer never hits it), keys at one address are pairwise
+       inequivalent (one entry per key), and running _expired(key) leaves nothing equivalent to the key behind;
+   (D) NOT proved: that the timed notification history of Model/Stack.v equals (B) for every scenario (the end-to-end
+       refinement C09_model_refines_spec), and the converse of (C) (no live stale timer).  Checked on every run by
+       comparing complete model traces with the implementation and judging the implementation traces with (B). *)
 From PS Require Import Lib.Base Generated.Consts Model.SdTypes Model.Config Model.Session Model.StackTypes
-  Spec.TraceSpec Spec.StoreSpec Proofs.StoreSpecProofs Proofs.TimedStoreProofs.
+  Model.Stack Model.StackIO Spec.TraceSpec Spec.StoreSpec Proofs.StoreSpecProofs Proofs.TimedStoreProofs Proofs.KeyEquiv Proofs.WorldInv.
 
 Section A.
   Context {K : Type} (keqb : K -> K -> bool) (keqb_eq : forall a b, keqb a b = true <-> a = b).
@@ -56,7 +61,29 @@ Theorem C09_history_alternates : forall touches t_end e,
   expected_history touches t_end = Some e -> alternates true (map snd e) = true.
 Proof. exact expected_alternates. Qed.
 
+(* (C) on the full stack model *)
+Theorem C09_ownership_kept_by_every_callback : forall h X w, GP X w -> GP X (exec h w).
+Proof. exact keeps_exec. Qed.
+Theorem C09_ownership_kept_by_every_iteration : forall arrivals rv w, G w -> G (iteration arrivals rv w).
+Proof. exact G_iteration. Qed.
+Theorem C09_ownership_in_every_reachable_state : forall s sc, d_scenario s = Some sc -> G (fst (run_scenario sc)).
+Proof. exact G_reachable. Qed.
+Theorem C09_stored_entry_owns_a_live_timer : forall w, G w -> forall st a k tid,
+  In (k, Some tid) (inner a (get_store st w)) -> In (tid, HExpired st a k) (tided w) /\ memN tid (cancelled w) = false.
+Proof. intros w Hg st a k tid H. exact (g_store _ _ Hg st a k tid H). Qed.
+Theorem C09_one_entry_per_key : forall w, G w -> forall st a, NoDupE (inner a (get_store st w)).
+Proof. intros w Hg. exact (g_keys _ _ Hg). Qed.
+Theorem C09_expiry_leaves_nothing_under_the_key : forall X st a k w, GP X w ->
+  forall p, In p (inner a (get_store st (store_expired st a k w))) -> key_eqb k (fst p) = false.
+Proof. exact expired_removes. Qed.
+
 Print Assumptions C09_timer_invariant.
+Print Assumptions C09_ownership_kept_by_every_callback.
+Print Assumptions C09_ownership_kept_by_every_iteration.
+Print Assumptions C09_ownership_in_every_reachable_state.
+Print Assumptions C09_stored_entry_owns_a_live_timer.
+Print Assumptions C09_one_entry_per_key.
+Print Assumptions C09_expiry_leaves_nothing_under_the_key.
 Print Assumptions C09_no_stale_timer.
 Print Assumptions C09_forever_owns_no_timer.
 Print Assumptions C09_removed_entry_has_no_timer.
